@@ -499,5 +499,5 @@ func (polyArea) Run(line string) string {
 }
 
 func main() {
-	hx.Main(map[string]hx.Area{"rect": rectArea{}, "matrix": matArea{}, "poly": polyArea{}, "rotate": rotArea{}})
+	hx.Main(map[string]hx.Area{"rect": rectArea{}, "matrix": matArea{}, "poly": polyArea{}, "rotate": rotArea{}, "floatspec": fspecArea{}})
 }
